@@ -23,7 +23,9 @@ pub fn prop() -> Prop {
         rule: "complete enumeration of: (a) 3 ciphers x payload lengths {0..=300, 511, 512, 1000, 1400, 1500, 8999, 9000} x buffer offsets {8,16,100}: byte-identical \
                round trip, no 8-byte cleartext window on the wire; for lengths 0..=48 (300 thorough) every single-bit flip, every truncation, reflection to the sealer, \
                injection into a pair with other keys, forgeries sealed with guessable keys under every key id and both halves: all must fail and leave the replay \
-               window unchanged; (b) 9 negotiated configurations through real handshakes (3 ciphers, plain/plain, plain on one side only, mixed lists); (c) router and \
+               window unchanged; (b) 64 negotiated configurations through real handshakes (3 ciphers, plain/plain, plain on one side only, mixed lists), 1401 pairs of cipher lists \
+               as a user may write them (plain needs a documented word on both ends), a scripted peer superseded by a new one on the same address x age x node id x \
+               lateness (old session dropped, new session carries payload); (c) router and \
                switch 3-node meshes: every wire datagram x {bit flips, truncations, reflection, injection into each of the 6 ordered connections}: no interface write, \
                no state change, and the capture contains no 8-byte window of any payload or claim. non-trivial = altered sealed datagram that reached the AEAD open",
         run,
